@@ -1175,3 +1175,276 @@ M("c16-count-before-write", "C16", "m3/reporter.go",
   "	m.Write(r.calcProto) //nolint:errcheck\n	size := r.calc.GetCount()\n", "	size := r.calc.GetCount()\n	m.Write(r.calcProto) //nolint:errcheck\n", expect="O3 calculate-size")
 M("c16-no-lock", "C16", "m3/reporter.go",
   "	r.calcLock.Lock()\n	m.Write(r.calcProto)", "	m.Write(r.calcProto)", expect="O3 calculate-size")
+
+# ---------------------------------------------------------------- C09 concurrent first use
+M("c09-drop-recheck-counter", "C09", "scope.go",
+  """	s.cm.Lock()
+	defer s.cm.Unlock()
+
+	if c, ok := s.counters[name]; ok {
+		return c
+	}
+""", """	s.cm.Lock()
+	defer s.cm.Unlock()
+""", expect="O1 double-checked")
+M("c09-rlock-for-lock-gauge", "C09", "scope.go",
+  """	s.gm.Lock()
+	defer s.gm.Unlock()
+""", """	s.gm.RLock()
+	defer s.gm.RUnlock()
+""", expect="O")
+M("c09-recheck-other-key", "C09", "scope.go",
+  """	if t, ok := s.timers[name]; ok {
+		return t
+	}
+
+	var cachedTimer CachedTimer""", """	if t, ok := s.timers[s.fullyQualifiedName(name)]; ok {
+		return t
+	}
+
+	var cachedTimer CachedTimer""", expect="O1 double-checked")
+M("c09-allocate-before-recheck", "C09", "scope.go",
+  """	if h, ok := s.histograms[name]; ok {
+		return h
+	}
+
+	var cachedHistogram CachedHistogram
+	if s.cachedReporter != nil {
+		cachedHistogram = s.cachedReporter.AllocateHistogram(
+			s.fullyQualifiedName(name), s.tags, b,
+		)
+	}
+""", """	var cachedHistogram CachedHistogram
+	if s.cachedReporter != nil {
+		cachedHistogram = s.cachedReporter.AllocateHistogram(
+			s.fullyQualifiedName(name), s.tags, b,
+		)
+	}
+	if h, ok := s.histograms[name]; ok {
+		return h
+	}
+""", expect="O1 double-checked")
+M("c09-subscope-no-recheck", "C09", "scope_registry.go",
+  """	if s, ok := r.lockedLookup(subscopeBucket, sanitizedKey); ok {
+		if _, ok = r.lockedLookup(subscopeBucket, unsanitizedKey); !ok {
+			subscopeBucket.s[unsanitizedKey] = s
+		}
+		return s
+	}
+
+	allTags""", """	allTags""", expect="O1 double-checked")
+M("c09-probe-without-lock", "C09", "scope.go",
+  """func (s *scope) timer(sanitizedName string) (Timer, bool) {
+	s.tm.RLock()
+	defer s.tm.RUnlock()
+""", """func (s *scope) timer(sanitizedName string) (Timer, bool) {
+""", expect="O2 field-discipline")
+M("c09-wrong-lock", "C09", "scope.go",
+  """	s.gm.RLock()
+	for _, gauge := range s.gaugesSlice {
+		gauge.cachedReport()
+	}
+	s.gm.RUnlock()""", """	s.cm.RLock()
+	for _, gauge := range s.gaugesSlice {
+		gauge.cachedReport()
+	}
+	s.cm.RUnlock()""", expect="O2 field-discipline")
+M("c09-early-return-leaks-lock", "C09", "stats.go",
+  """	c.mtx.RLock()
+	storage, ok := c.cache[id]
+	if !ok {""", """	c.mtx.RLock()
+	storage, ok := c.cache[id]
+	if id == 0 {
+		return storage
+	}
+	if !ok {""", expect="O3 lock-pairing")
+B("c09-benign-lock-order-inversion-single-site", "C09", "scope.go",
+  """	s.cm.Lock()
+	s.gm.Lock()
+	s.tm.Lock()
+	s.hm.Lock()
+	defer s.cm.Unlock()
+	defer s.gm.Unlock()
+	defer s.tm.Unlock()
+	defer s.hm.Unlock()
+
+	for k := range s.counters {""", """	s.hm.Lock()
+	s.tm.Lock()
+	s.gm.Lock()
+	s.cm.Lock()
+	defer s.cm.Unlock()
+	defer s.gm.Unlock()
+	defer s.tm.Unlock()
+	defer s.hm.Unlock()
+
+	for k := range s.counters {""")
+M("c09-lookup-helper-unlocked-caller", "C09", "scope_registry.go",
+  """	subscopeBucket.mu.RLock()
+	// buf is stack allocated""", """	// buf is stack allocated""", expect="O")
+M("c09-interner-unlocked-write", "C09", "internal/cache/string_intern.go",
+  """	i.mtx.Lock()
+	i.entries[s] = s
+	i.mtx.Unlock()
+""", """	i.entries[s] = s
+""", expect="O2 field-discipline")
+M("c09-closed-plain-bool", "C09", "scope.go",
+  """	if s.closed.Load() {
+		return
+	}
+
+	s.reportRegistry()""", """	if *(*bool)(unsafe.Pointer(&s.closed)) {
+		return
+	}
+
+	s.reportRegistry()""", expect="O2 atomic-only", more=[("scope.go", 'import (\n	"io"', 'import (\n	"unsafe"\n	"io"')])
+B("c09-benign-explicit-unlock", "C09", "scope.go",
+  """func (s *scope) gauge(name string) (Gauge, bool) {
+	s.gm.RLock()
+	defer s.gm.RUnlock()
+
+	g, ok := s.gauges[name]
+	return g, ok""", """func (s *scope) gauge(name string) (Gauge, bool) {
+	s.gm.RLock()
+	g, ok := s.gauges[name]
+	s.gm.RUnlock()
+	return g, ok""")
+M("c09-lock-order-cycle", "C09", "scope.go",
+  """	s.gm.RLock()
+	for _, gauge := range s.gaugesSlice {
+		gauge.cachedReport()
+	}
+	s.gm.RUnlock()""", """	s.gm.RLock()
+	s.cm.RLock()
+	for _, gauge := range s.gaugesSlice {
+		gauge.cachedReport()
+	}
+	s.cm.RUnlock()
+	s.gm.RUnlock()""", expect="O3 lock-order")
+M("c09-reacquire-read-lock", "C09", "scope.go",
+  """	s.hm.RLock()
+	for _, histogram := range s.histogramsSlice {
+		histogram.cachedReport()
+	}
+	s.hm.RUnlock()""", """	s.hm.RLock()
+	for _, histogram := range s.histogramsSlice {
+		if _, ok := s.histogram(histogram.name); ok {
+			histogram.cachedReport()
+		}
+	}
+	s.hm.RUnlock()""", expect="O3 lock-order")
+
+# ---------------------------------------------------------------- C07 subscope close
+M("c07-revert-flag-sample", "C07", "scope_registry.go",
+  """			closed := s.closed.Load()
+			s.report(reporter)
+
+			if closed {""", """			s.report(reporter)
+
+			if s.closed.Load() {""", expect="O1 flag-before-report")
+M("c07-revert-identity-check", "C07", "scope_registry.go",
+  """	if curr, ok := subscopeBucket.s[key]; ok && curr == s {
+		delete(subscopeBucket.s, key)
+	}""", """	delete(subscopeBucket.s, key)""", expect="O3 lock-gap")
+M("c07-clear-without-report", "C07", "scope_registry.go",
+  """			closed := s.closed.Load()
+			s.cachedReport()
+
+			if closed {""", """			closed := s.closed.Load()
+			if !closed {
+				s.cachedReport()
+			}
+
+			if closed {""", expect="O2 report-before-clear")
+M("c07-reacquire-no-report", "C07", "scope_registry.go",
+  """		switch {
+		case parent.reporter != nil:
+			s.report(parent.reporter)
+		case parent.cachedReporter != nil:
+			s.cachedReport()
+		}
+""", """		if parent.reporter != nil {
+			s.report(parent.reporter)
+		}
+""", expect="O2 report-before-clear")
+M("c07-identity-check-wrong-scope", "C07", "scope_registry.go",
+  "				r.removeWithRLock(subscopeBucket, name, s)\n				s.clearMetrics()\n			}\n		}\n\n		subscopeBucket.mu.RUnlock()\n	}\n}\n\nfunc (r *scopeRegistry) CachedReport() {",
+  "				r.removeWithRLock(subscopeBucket, name, r.root)\n				s.clearMetrics()\n			}\n		}\n\n		subscopeBucket.mu.RUnlock()\n	}\n}\n\nfunc (r *scopeRegistry) CachedReport() {", expect="O3 lock-gap-caller")
+M("c07-close-plain-store", "C07", "scope.go",
+  """	if !s.closed.CAS(false, true) {
+		return nil
+	}
+""", """	if s.closed.Load() {
+		return nil
+	}
+	s.closed.Store(true)
+""", expect="O4 inert-and-close")
+M("c07-subscope-no-parent-check", "C07", "scope_registry.go",
+  "	if r.root.closed.Load() || parent.closed.Load() {", "	if r.root.closed.Load() {", expect="O4 inert-and-close")
+M("c07-remove-keeps-write-lock", "C07", "scope_registry.go",
+  """	subscopeBucket.mu.RUnlock()
+	defer subscopeBucket.mu.RLock()
+	subscopeBucket.mu.Lock()
+	defer subscopeBucket.mu.Unlock()""", """	subscopeBucket.mu.RUnlock()
+	subscopeBucket.mu.Lock()
+	defer subscopeBucket.mu.RLock()""", expect="O5 lock-pairing")
+M("c07-clear-under-bucket-write-lock-calls-report", "C07", "scope_registry.go",
+  """			_ = s.Close()
+			s.clearMetrics()""", """			_ = s.Close()
+			r.reportInternalMetrics()
+			s.clearMetrics()""", expect="O5 lock-order")
+B("c07-benign-switch-to-if", "C07", "scope_registry.go",
+  """		switch {
+		case parent.reporter != nil:
+			s.report(parent.reporter)
+		case parent.cachedReporter != nil:
+			s.cachedReport()
+		}
+""", """		if parent.reporter != nil {
+			s.report(parent.reporter)
+		} else if parent.cachedReporter != nil {
+			s.cachedReport()
+		}
+""")
+
+# ---------------------------------------------------------------- C08 root close
+M("c08-revert-wg-wait", "C08", "scope.go",
+  "		s.wg.Wait()\n		s.reportRegistry()", "		s.reportRegistry()", expect="O")
+M("c08-wait-after-report", "C08", "scope.go",
+  "		s.wg.Wait()\n		s.reportRegistry()", "		s.reportRegistry()\n		s.wg.Wait()", expect="O1 close-chain")
+M("c08-purge-deferred-in-pass", "C08", "scope_registry.go",
+  "func (r *scopeRegistry) Report(reporter StatsReporter) {\n	r.reportInternalMetrics()", "func (r *scopeRegistry) Report(reporter StatsReporter) {\n	defer r.purgeIfRootClosed()\n	r.reportInternalMetrics()", expect="O3 purge-only-from-close")
+M("c08-purge-before-report", "C08", "scope.go",
+  """		s.reportRegistry()
+		if s.reporter != nil || s.cachedReporter != nil {
+			s.registry.purgeIfRootClosed()
+		}""", """		if s.reporter != nil || s.cachedReporter != nil {
+			s.registry.purgeIfRootClosed()
+		}
+		s.reportRegistry()""", expect="O1 close-chain")
+M("c08-no-final-flush", "C08", "scope.go",
+  """		s.registry.CachedReport()
+		s.cachedReporter.Flush()""", """		s.registry.CachedReport()""", expect="O1 report-then-flush")
+M("c08-closer-error-dropped", "C08", "scope.go",
+  """		if closer, ok := s.baseReporter.(io.Closer); ok {
+			return closer.Close()
+		}""", """		if closer, ok := s.baseReporter.(io.Closer); ok {
+			_ = closer.Close()
+		}""", expect="O1 close-chain")
+M("c08-done-not-closed", "C08", "scope.go",
+  "	close(s.done)\n\n	if s.root {", "	if s.root {", expect="O1 close-chain")
+M("c08-loop-ignores-done", "C08", "scope.go",
+  """		select {
+		case <-ticker.C:
+			s.reportLoopRun()
+		case <-s.done:
+			return
+		}""", """		<-ticker.C
+		s.reportLoopRun()""", expect="O4 ticker-loop")
+M("c08-tick-ignores-closed", "C08", "scope.go",
+  """	if s.closed.Load() {
+		return
+	}
+
+	s.reportRegistry()""", """	s.reportRegistry()""", expect="O4 ticker-loop")
+M("c08-no-wg-done", "C08", "scope.go",
+  "			defer s.wg.Done()\n			s.reportLoop(interval)", "			s.reportLoop(interval)", expect="O2 waitgroup")
